@@ -74,6 +74,7 @@ type world struct {
 	set    *pongo2.TemplateSet
 	loader *px.MemLoader
 	tpl    *pongo2.Template
+	names  []string // the block names every ExecuteBlocks operation of this world passes (one slice, shared by the threads)
 }
 
 func (c *Case) newWorld() (*world, string) {
@@ -91,7 +92,7 @@ func (c *Case) newWorld() (*world, string) {
 	if tpl == nil {
 		return nil, out.String()
 	}
-	return &world{set: set, loader: l, tpl: tpl}, ""
+	return &world{set: set, loader: l, tpl: tpl, names: c04.BlockNames()}, ""
 }
 
 // op returns the body of one thread
@@ -121,6 +122,17 @@ func (w *world) op(name string) func() any {
 			b1, err1 := w.tpl.ExecuteBytes(c04.MkCtx(i))
 			b2, err2 := w.tpl.ExecuteBytes(c04.MkCtx(i))
 			return keptBytes{b1, b2, err1 != nil, err2 != nil}
+		}
+	case strings.HasPrefix(name, "blocks:"):
+		i := int(name[7] - '0')
+		return func() any {
+			res, err := w.tpl.ExecuteBlocks(c04.MkCtx(i), w.names)
+			var ks []string
+			for k, v := range res {
+				ks = append(ks, fmt.Sprintf("%s=%q", k, v))
+			}
+			sort.Strings(ks)
+			return fmt.Sprintf("%v %v asked=%v", ks, err != nil, w.names)
 		}
 	case name == "compile-string":
 		return func() any {
@@ -239,7 +251,7 @@ func (c *Case) Exec(t *eng.T) {
 			for _, o := range c.Ops {
 				bodies = append(bodies, w.op(o))
 			}
-			roots := map[string]any{"tpl": w.tpl, "set": w.set}
+			roots := map[string]any{"tpl": w.tpl, "set": w.set, "names": &w.names}
 			for _, v := range pongo2.VerifPkgVars() {
 				roots["pkg."+v.Name] = v.Ptr // everything reachable from package-level variables is shared, too
 			}
@@ -309,7 +321,7 @@ func run(r *eng.Runner) {
 	if !r.Quick() {
 		bound, maxS = 3, 200000
 	}
-	r.Group("exec-exec", "c05.case", fmt.Sprintf("two threads executing ONE compiled template (every C04 program, options off and TrimBlocks+LStripBlocks) with different contexts (also the failing one), every schedule up to %d preemption(s); stores into memory reachable from the template/set/package variables are scheduling points, loader I/O too", bound))
+	r.Group("exec-exec", "c05.case", fmt.Sprintf("two threads executing ONE compiled template (every C04 program, options off and TrimBlocks+LStripBlocks) with different contexts (also the failing one; for programs with blocks also ExecuteBlocks with one list of names shared by the threads), every schedule up to %d preemption(s); stores into memory reachable from the template/set/package variables are scheduling points, loader I/O too", bound))
 	for i, n := range names {
 		for _, trim := range []bool{false, true} {
 			for oi, ops := range [][]string{{"exec:0", "exec:1"}, {"exec:0", "exec:2"}, {"execwriter:1", "unbuffered:0"}, {"execbytes:0", "execbytes:1"}} {
@@ -317,6 +329,11 @@ func run(r *eng.Runner) {
 					continue // 600 nested calls per execution: one pairing is enough (every scheduling point inside the recursion multiplies the schedules)
 				}
 				r.Do(&Case{Files: files[i], Trim: trim, Ops: ops, Bound: bound, MaxSched: maxS, Label: "exec-exec:" + n})
+			}
+			if strings.Contains(files[i]["/main"], "{% block") {
+				for _, ops := range [][]string{{"blocks:0", "blocks:1"}, {"blocks:0", "exec:1"}} {
+					r.Do(&Case{Files: files[i], Trim: trim, Ops: ops, Bound: bound, MaxSched: maxS, Label: "blocks:" + n})
+				}
 			}
 		}
 	}
